@@ -28,10 +28,17 @@ type c06Case struct {
 	Ops      []string `json:"ops"`
 	Protocol string   `json:"protocol"` // "v3" rev-tree, "v4" version vectors
 	Resolver string   `json:"resolver"`
+	// Env, when set, is the one departure from the default environment made during the replication run whose op is
+	// marked with "!" (part TestVerifC06Env)
+	Env *c06Env `json:"env,omitempty"`
 }
 
 func (c c06Case) String() string {
-	return fmt.Sprintf("protocol=%s resolver=%s history=[%s]", c.Protocol, c.Resolver, strings.Join(c.Ops, " "))
+	s := fmt.Sprintf("protocol=%s resolver=%s history=[%s]", c.Protocol, c.Resolver, strings.Join(c.Ops, " "))
+	if c.Env != nil {
+		s += " during the run marked !: " + c.Env.String()
+	}
+	return s
 }
 
 var c06Alphabet = []string{"push", "pull", "pushpull", "editA", "editP", "delA", "delP"}
@@ -203,6 +210,10 @@ func c06RootCause(a, p c06State) string {
 func c06History(t testing.TB, r *vreport.Report, c c06Case, peers TestISGRPeers, docID string) (valid bool) {
 	w := &c06World{t: t, c: c, doc: docID, active: peers.ActiveRT, passive: peers.PassiveRT, url: peers.PassiveDBURL}
 	tag := c.Protocol + "/" + c.Resolver
+	tag0 := tag // a recognised mechanism is the same finding with or without an environment departure
+	if c.Env != nil {
+		tag += "/" + c.Env.tag()
+	}
 	setSync := func(fn string) {
 		coll, cctx := w.active.GetSingleTestDatabaseCollectionWithUser()
 		if _, err := coll.UpdateSyncFun(cctx, fn); err != nil {
@@ -211,7 +222,7 @@ func c06History(t testing.TB, r *vreport.Report, c c06Case, peers TestISGRPeers,
 	}
 	setSync(c06RejectingSyncFn) // peers are shared by several histories: every history starts with the refusing function
 	accepts := false
-	perDirectionFirst := false
+	perDirectionFirst := c.Env != nil
 	for _, op := range c.Ops {
 		if op == "acceptA" {
 			perDirectionFirst = true
@@ -234,6 +245,26 @@ func c06History(t testing.TB, r *vreport.Report, c c06Case, peers TestISGRPeers,
 			setSync(c06AcceptingSyncFn)
 			accepts = true
 		default:
+			if strings.HasSuffix(op, "!") {
+				// the run during which the environment departs once from its default answer; it may end in error
+				// (revision caches emptied, as after eviction, so that the run has to read the document from storage)
+				w.active.GetDatabase().FlushRevisionCacheForTest()
+				w.passive.GetDatabase().FlushRevisionCacheForTest()
+				c06Hook.arm(w, c.Env)
+				res := w.replicate(strings.TrimSuffix(op, "!"))
+				fired, noop := c06Hook.disarm()
+				if noop {
+					r.Add("departures_that_could_not_be_made", 1)
+				}
+				if !fired {
+					return false // the run makes fewer than K such calls
+				}
+				if !res.Stopped && res.Err == "" {
+					r.Violate("C06/replication-did-not-complete/"+tag+"/"+op+"/"+c.Env.tag(), fmt.Sprintf("one-shot %s (step %d) reached neither stopped nor error within 60 s; %s", op, i+1, c), c)
+					return true
+				}
+				continue
+			}
 			res := w.replicate(op)
 			if !res.Stopped {
 				r.Violate("C06/replication-did-not-complete/"+tag+"/"+op, fmt.Sprintf("one-shot %s (step %d) did not reach stopped within 60 s: %q; %s", op, i+1, res.Err, c), c)
@@ -338,12 +369,12 @@ func c06History(t testing.TB, r *vreport.Report, c c06Case, peers TestISGRPeers,
 	if len(diffs) == 1 && diffs[0] == "current-version-differs" && a.Deleted && p.Deleted {
 		// both peers deleted the document independently: the two tombstones have the same revision-tree id but each peer
 		// generated its own version for it, and replication treats tombstone-against-tombstone as nothing to do
-		r.Violate("C06/diverged/independent-deletes-keep-different-current-versions/"+tag, "after catch-up both peers hold a tombstone (winning revision "+a.RevTree+" / "+p.RevTree+") under different current versions: "+desc, c)
+		r.Violate("C06/diverged/independent-deletes-keep-different-current-versions/"+tag0, "after catch-up both peers hold a tombstone (winning revision "+a.RevTree+" / "+p.RevTree+") under different current versions: "+desc, c)
 		return true
 	}
 	if len(diffs) > 0 {
 		if cause := c06RootCause(a, p); cause != "" {
-			r.Violate("C06/diverged/"+cause+"/"+tag, "after catch-up ("+strings.Join(diffs, ", ")+"): "+desc, c)
+			r.Violate("C06/diverged/"+cause+"/"+tag0, "after catch-up ("+strings.Join(diffs, ", ")+"): "+desc, c)
 		} else {
 			r.Violate("C06/diverged/"+strings.Join(diffs, "+")+"/"+tag+"/"+strings.Join(c.Ops, ","), "after catch-up: "+desc, c)
 		}
@@ -367,24 +398,34 @@ func c06History(t testing.TB, r *vreport.Report, c c06Case, peers TestISGRPeers,
 	return true
 }
 
-func c06Peers(t *testing.T, protocol string) TestISGRPeers {
+func c06Peers(t *testing.T, protocol string, leaky bool) TestISGRPeers {
 	protocols := []string{db.CBMobileReplicationV3.SubprotocolString()}
 	if protocol == "v4" {
 		protocols = []string{db.CBMobileReplicationV4.SubprotocolString()}
 	}
-	return SetupISGRPeersWithOpts(t, TestISGRPeerOpts{ActivePeerSupportedBLIPSubProtocols: protocols,
-		ActiveRestTesterConfig: &RestTesterConfig{DatabaseConfig: &DatabaseConfig{DbConfig: DbConfig{Name: "activedb"}}, SgReplicateEnabled: true, SyncFn: c06RejectingSyncFn}})
+	opts := TestISGRPeerOpts{ActivePeerSupportedBLIPSubProtocols: protocols,
+		ActiveRestTesterConfig: &RestTesterConfig{DatabaseConfig: &DatabaseConfig{DbConfig: DbConfig{Name: "activedb"}}, SgReplicateEnabled: true, SyncFn: c06RejectingSyncFn}}
+	if leaky {
+		// both peers on buckets whose document reads and update callbacks pass through the harness's seam (c06Hook)
+		ctx := base.TestCtx(t)
+		ab, pb := base.GetTestBucket(t), base.GetTestBucket(t)
+		t.Cleanup(func() { ab.Close(ctx); pb.Close(ctx) })
+		opts.ActiveRestTesterConfig.CustomTestBucket = ab.LeakyBucketClone(c06Hook.config("A"))
+		opts.PassiveRestTesterConfig = &RestTesterConfig{DatabaseConfig: &DatabaseConfig{DbConfig: DbConfig{Name: "passivedb"}},
+			SyncFn: c06AcceptingSyncFn, CustomTestBucket: pb.LeakyBucketClone(c06Hook.config("P"))}
+	}
+	return SetupISGRPeersWithOpts(t, opts)
 }
 
 func TestVerifC06(t *testing.T) {
 	r := vreport.Begin("C06")
 	defer r.Finish(t)
 	r.Rule("histories over {push, pull, pushpull (one-shot, run to completion, one replication id per direction so later runs restart from the checkpoint), editA, editP, delA, delP}; plus histories that start with editPbad (an edit the active peer's sync function refuses) followed by up to D-1 of {pull, push, pushpull, acceptA (the active peer starts accepting), editP} (edit on a tombstone = resurrection) on one document, depth <= D, x protocol {rev-tree v3, version-vector v4} x resolver; histories whose delete has no live document are pruned; a pair of peers serves up to 40 histories, each on its own document, so most histories also start from non-initial replication checkpoints; non-trivial = distinct valid (history, protocol, resolver)")
-	r.Assume("local writes interleave with replication at operation granularity only: scheduling inside one replication run (BLIP goroutines, sockets; the push and the pull half of a push-and-pull run) is left to the Go runtime, so intra-run races are met as they happen, not enumerated; the replicating-client (Couchbase Lite) side of the statement is represented by the passive peer only")
+	r.Assume("local writes interleave with replication at operation granularity (main part) and at one storage call of the document inside a run (part b); other scheduling inside one replication run (BLIP goroutines, sockets; the push and the pull half of a push-and-pull run) is left to the Go runtime, so those intra-run races are met as they happen, not enumerated; the replicating-client (Couchbase Lite) side of the statement is represented by the passive peer only")
 	var rc c06Case
 	if r.Replaying(&rc) {
 		t.Run("replay", func(t *testing.T) {
-			c06History(t, r, rc, c06Peers(t, rc.Protocol), "d1")
+			c06History(t, r, rc, c06Peers(t, rc.Protocol, rc.Env != nil), "d1")
 		})
 		return
 	}
@@ -470,7 +511,7 @@ func TestVerifC06(t *testing.T) {
 				break
 			}
 			t.Run(fmt.Sprintf("%s-%d", strings.ReplaceAll(k, "/", "-"), lo), func(t *testing.T) {
-				peers := c06Peers(t, cases[lo].Protocol)
+				peers := c06Peers(t, cases[lo].Protocol, false)
 				for _, c := range cases[lo:hi] {
 					if r.Expired() {
 						return
